@@ -34,7 +34,14 @@ type wcfg struct {
 	op      byte
 	noFlush bool
 	ext     bool
+	// flags are the state bits that do not concern the writer (StateExtended on a connection with a
+	// negotiated extension, StateFragmented): old and new state of a reset may share them
+	flags ws.State
 }
+
+func (c wcfg) state() ws.State { return stateOf(c.side) | c.flags }
+
+var stateFlags = []ws.State{0, ws.StateExtended, ws.StateFragmented, ws.StateExtended | ws.StateFragmented}
 
 func stateOf(s ref.Side) ws.State {
 	switch s {
@@ -88,7 +95,7 @@ func freshLike(like *wsutil.Writer, dst io.Writer, cfg wcfg) *wsutil.Writer {
 					w = nil
 				}
 			}()
-			w = wsutil.NewWriterBuffer(dst, stateOf(cfg.side), ws.OpCode(cfg.op), make([]byte, rl))
+			w = wsutil.NewWriterBuffer(dst, cfg.state(), ws.OpCode(cfg.op), make([]byte, rl))
 		}()
 		if w != nil && w.Size() == size {
 			return w
@@ -106,7 +113,7 @@ func freshLike(like *wsutil.Writer, dst io.Writer, cfg wcfg) *wsutil.Writer {
 					w = nil
 				}
 			}()
-			w = wsutil.NewWriterBuffer(dst, stateOf(cfg.side), ws.OpCode(cfg.op), make([]byte, n))
+			w = wsutil.NewWriterBuffer(dst, cfg.state(), ws.OpCode(cfg.op), make([]byte, n))
 		}()
 		if w != nil && w.Size() == size {
 			return w
@@ -170,7 +177,7 @@ func subWriterReset() mon.Sub {
 		Do: func(c *mon.C) {
 			mode := modes[c.I%len(modes)]
 			// history
-			hcfg := wcfg{side: ref.Side(c.Rng.Intn(3)), op: []byte{ref.OpText, ref.OpBinary}[c.Rng.Intn(2)], noFlush: c.Rng.Intn(4) == 0, ext: c.Rng.Intn(3) == 0}
+			hcfg := wcfg{side: ref.Side(c.Rng.Intn(3)), op: []byte{ref.OpText, ref.OpBinary}[c.Rng.Intn(2)], noFlush: c.Rng.Intn(4) == 0, ext: c.Rng.Intn(3) == 0, flags: stateFlags[c.Rng.Intn(4)]}
 			size := []int{8, 16, 100, 125, 126, 200, 4000}[c.Rng.Intn(7)]
 			hdst := xport.NewRec()
 			failing := mode != "ResetOp" && c.Rng.Intn(3) == 0
@@ -181,9 +188,9 @@ func subWriterReset() mon.Sub {
 			}
 			var a *wsutil.Writer
 			if mode == "PutGet" {
-				a = wsutil.GetWriter(hdst, stateOf(hcfg.side), ws.OpCode(hcfg.op), 128<<uint(c.Rng.Intn(4)))
+				a = wsutil.GetWriter(hdst, hcfg.state(), ws.OpCode(hcfg.op), 128<<uint(c.Rng.Intn(4)))
 			} else {
-				a = wsutil.NewWriterSize(hdst, stateOf(hcfg.side), ws.OpCode(hcfg.op), size)
+				a = wsutil.NewWriterSize(hdst, hcfg.state(), ws.OpCode(hcfg.op), size)
 			}
 			if hcfg.ext {
 				a.SetExtensions(rsv2)
@@ -194,18 +201,18 @@ func subWriterReset() mon.Sub {
 			hops := randOps(c, c.Rng.Intn(8))
 			hist := trace(a, hdst, hops, 0, c.Rng.Int63())
 			// the configuration after the reset
-			ncfg := wcfg{side: ref.Side(c.Rng.Intn(3)), op: []byte{ref.OpText, ref.OpBinary}[c.Rng.Intn(2)]}
+			ncfg := wcfg{side: ref.Side(c.Rng.Intn(3)), op: []byte{ref.OpText, ref.OpBinary}[c.Rng.Intn(2)], flags: stateFlags[c.Rng.Intn(4)]}
 			adst, bdst := xport.NewRec(), xport.NewRec()
 			var b *wsutil.Writer
 			sameObject := true
 			switch mode {
 			case "Reset":
-				a.Reset(adst, stateOf(ncfg.side), ws.OpCode(ncfg.op))
+				a.Reset(adst, ncfg.state(), ws.OpCode(ncfg.op))
 				b = freshLike(a, bdst, ncfg)
 			case "PutGet":
 				sz := a.Size()
 				wsutil.PutWriter(a)
-				a2 := wsutil.GetWriter(adst, stateOf(ncfg.side), ws.OpCode(ncfg.op), sz)
+				a2 := wsutil.GetWriter(adst, ncfg.state(), ws.OpCode(ncfg.op), sz)
 				// (the writer pool only keeps writers whose Size() is an exact class size; otherwise
 				// GetWriter builds a new one - either way the result must behave as new)
 				sameObject = a2 == a
@@ -213,7 +220,7 @@ func subWriterReset() mon.Sub {
 				b = freshLike(a, bdst, ncfg)
 			case "ResetOp":
 				// keeps destination, state, extensions and flush mode; drops unflushed fragments
-				ncfg = wcfg{side: hcfg.side, op: ncfg.op, noFlush: hcfg.noFlush, ext: hcfg.ext}
+				ncfg = wcfg{side: hcfg.side, op: ncfg.op, noFlush: hcfg.noFlush, ext: hcfg.ext, flags: hcfg.flags}
 				adst = hdst
 				a.ResetOp(ws.OpCode(ncfg.op))
 				b = freshLike(a, bdst, ncfg)
